@@ -103,6 +103,8 @@ def cases(ctx):
                'upper': rng.random() < 0.3}
     for j in range((16 if ctx.tier == 'quick' else 200) // ctx.nshards + 1):
         yield {'kind': 'kcv', 'key': rng.randbytes(rng.choice([16, 24])).hex()}
+    if ctx.shard == 1:
+        yield {'kind': 'threads', 'threads': 6, 'salt': ctx.seed}
 
 
 def fail(ctx, case, mech, detail):
@@ -117,7 +119,33 @@ def call(ctx, case, what, fn, *a, **kw):
     return False, (kind, val)
 
 
+def judge_threads(ctx, case):
+    """PVVs and key check values asked for from several threads at once: every caller gets its own answer."""
+    from ..core import threaded_agreement
+    rng = ctx.rng_global('thr14', case['salt'])
+    plans = []
+    for t in range(case['threads']):
+        plan = []
+        for _ in range(8):
+            pin = ''.join(rng.choice('0123456789') for _ in range(rng.randint(4, 12)))
+            pan = ''.join(rng.choice('0123456789') for _ in range(rng.randint(13, 19)))
+            key = rng.randbytes(rng.choice([8, 16, 24])).hex()
+            idx = rng.randint(0, 9)
+            want = ref.pvv_from_cipher_hex(refc.tdes_ecb_encrypt(bytes.fromhex(key), bytes.fromhex(ref.pvv_tsp(pin, pan, idx))).hex())
+            plan.append((ctx.pb.calculate_pvv, (pin, key, idx, pan), want))
+            k2 = rng.randbytes(16)
+            plan.append((ctx.key.calculate_kcv, (k2,), ref.kcv(k2)))
+        plans.append(plan)
+    bad, alternations = threaded_agreement(plans, rounds=60 if ctx.tier == 'quick' else 600)
+    ctx.case_done(['threads', case['salt']])
+    ctx.count('thread alternations between consecutive PVV / KCV calls', alternations)
+    if bad:
+        fail(ctx, case, 'threads:a_caller_got_another_answer', {'thread': bad[0][0], 'call': bad[0][1], 'got': bad[0][2]})
+
+
 def judge(ctx, case):
+    if case['kind'] == 'threads':
+        return judge_threads(ctx, case)
     if case['kind'] == 'pvv':
         return judge_pvv(ctx, case)
     if case['kind'] == 'keys':
@@ -287,6 +315,8 @@ def canaries(ctx):
 
 def require(m):
     reasons = []
+    if m['counters'].get('thread alternations between consecutive PVV / KCV calls', 0) < 20 and not m['violations']:
+        reasons.append('threaded PVV / KCV calls did not overlap')
     if set(m['classes'].get('digits supplied by the second scan', ())) != {0, 1, 2, 3, 4} and not m['violations']:
         reasons.append('second decimalisation scan not observed for every d in 0..4: %s'
                        % sorted(m['classes'].get('digits supplied by the second scan', ())))
